@@ -8,9 +8,10 @@
 //     after a swap_remove is therefore left UNSPECIFIED here); `clear()` removes everything;
 //   * `get_index(i)` addresses the i-th entry in insertion order; `len()` / `is_empty()` count the entries;
 //   * `values()`, `iter()`, `(&map).into_iter()`, `map.into_iter()` yield every entry once, in insertion order;
-//     `Iterator::enumerate` pairs the items with 0, 1, 2, ...
+//     `Iterator::enumerate` pairs the items with 0, 1, 2, ...; `Iterator::map(f)` applies f to every item in order
 // Two views of the same object:  `entries(): Seq<(K, V)>` (insertion order) and `map(): Map<K, V>` (the finite map
-// the entries represent).  Each contract is stated over the view(s) it is naturally about; `ax_entries_map` links them.
+// the entries represent).  Each contract is stated over the view(s) it is naturally about; NO axiom links the two views
+// (clients use one view per map object).
 pub mod omap42 {
     use vstd::prelude::*;
 
@@ -91,11 +92,6 @@ pub mod omap42 {
                         *(#[trigger] r.rest()[i]).0 == self.entries()[i].0 && *r.rest()[i].1 == self.entries()[i].1,
         { unimplemented!() }
     }
-    /// ASSUMED (IndexMap representation invariant): every entry is a binding of the map, the keys are pairwise distinct
-    pub broadcast axiom fn ax_entries_map<K, V>(m: IndexMap<K, V>, i: int)
-        requires 0 <= i < m.entries().len()
-        ensures m.map().contains_key((#[trigger] m.entries()[i]).0) && m.map()[m.entries()[i].0] == m.entries()[i].1;
-
     #[verifier::external_body]
     pub fn index_map_new<K, V>() -> (r: IndexMap<K, V>)
         ensures r.entries() == Seq::<(K, V)>::empty(), r.map() == Map::<K, V>::empty()
@@ -144,7 +140,33 @@ pub mod omap42 {
     #[verifier::reject_recursive_types(K)]
     #[verifier::reject_recursive_types(V)]
     pub struct Iter<'a, K, V> { k: core::marker::PhantomData<&'a (K, V)> }
-    impl<'a, K, V> Iter<'a, K, V> { pub uninterp spec fn rest(&self) -> Seq<(&'a K, &'a V)>; }
+    impl<'a, K, V> Iter<'a, K, V> {
+        pub uninterp spec fn rest(&self) -> Seq<(&'a K, &'a V)>;
+        /// `Iterator::map(f)` (inherent here, shadows the trait method): `f` applied to each remaining entry, in order
+        #[verifier::external_body]
+        pub fn map<B, F: Fn((&'a K, &'a V)) -> B>(self, f: F) -> (r: Mapped<B>)
+            requires forall|i: int| 0 <= i < self.rest().len() ==> f.requires((#[trigger] self.rest()[i],)),
+            ensures r.rest().len() == self.rest().len(),
+                    forall|i: int| #![trigger self.rest()[i]] #![trigger r.rest()[i]] 0 <= i < self.rest().len() ==> f.ensures((self.rest()[i],), r.rest()[i]),
+        { unimplemented!() }
+    }
+    /// the iterator produced by `map`: yields the mapped items
+    #[verifier::external_body]
+    #[verifier::reject_recursive_types(B)]
+    pub struct Mapped<B> { k: core::marker::PhantomData<B> }
+    impl<B> Mapped<B> { pub uninterp spec fn rest(&self) -> Seq<B>; }
+    impl<B> Iterator for Mapped<B> {
+        type Item = B;
+        #[verifier::external_body]
+        fn next(&mut self) -> (r: Option<B>) { unimplemented!() }
+    }
+    impl<B> vstd::std_specs::iter::IteratorSpecImpl for Mapped<B> {
+        open spec fn obeys_prophetic_iter_laws(&self) -> bool { true }
+        open spec fn remaining(&self) -> Seq<B> { self.rest() }
+        open spec fn will_return_none(&self) -> bool { true }
+        open spec fn peek(&self, index: int) -> Option<B> { if 0 <= index < self.rest().len() { Some(self.rest()[index]) } else { None } }
+        open spec fn decrease(&self) -> Option<nat> { Some(self.rest().len()) }
+    }
     impl<'a, K, V> Iterator for Iter<'a, K, V> {
         type Item = (&'a K, &'a V);
         #[verifier::external_body]
